@@ -204,9 +204,7 @@ impl SqPackData {
     ///
     /// If the block of data is successfully parsed, it returns the file data - otherwise is None.
     pub fn read_from_offset(&mut self, offset: u64) -> Option<ByteBuffer> {
-        self.file
-            .seek(SeekFrom::Start(offset))
-            .expect("Unable to find offset in file.");
+        self.file.seek(SeekFrom::Start(offset)).ok()?;
 
         let file_info = FileInfo::read(&mut self.file).ok()?;
 
@@ -236,9 +234,8 @@ impl SqPackData {
             data.append(
                 &mut read_data_block(
                     &mut self.file,
-                    starting_position + (blocks[i as usize].offset as u64),
-                )
-                .expect("Failed to read data block."),
+                    starting_position.checked_add_signed(blocks[i as usize].offset as i64)?,
+                )?,
             );
         }
 
@@ -284,14 +281,13 @@ impl SqPackData {
             for _ in 0..size {
                 let last_pos = &self.file.stream_position().ok()?;
 
-                let data =
-                    read_data_block(&self.file, *last_pos).expect("Unable to read block data.");
+                let data = read_data_block(&self.file, *last_pos)?;
                 // write to buffer
                 buffer.write_all(data.as_slice()).ok()?;
 
                 self.file
                     .seek(SeekFrom::Start(
-                        last_pos + (compressed_block_sizes[current_block] as u64),
+                        last_pos + (*compressed_block_sizes.get(current_block)? as u64),
                     ))
                     .ok()?;
                 current_block += 1;
@@ -314,7 +310,8 @@ impl SqPackData {
              size: u32,
              offset: u32,
              offsets: &mut [u32; 3],
-             data_sizes: &mut [u32; 3]| {
+             data_sizes: &mut [u32; 3]|
+             -> Option<()> {
                 if size != 0 {
                     let current_vertex_offset = buffer.position() as u32;
                     if i == 0 || current_vertex_offset != offsets[i - 1] {
@@ -325,27 +322,26 @@ impl SqPackData {
 
                     self.file
                         .seek(SeekFrom::Start(base_offset + (offset as u64)))
-                        .ok();
+                        .ok()?;
 
                     for _ in 0..size {
-                        let last_pos = self.file.stream_position().unwrap();
+                        let last_pos = self.file.stream_position().ok()?;
 
-                        let data = read_data_block(&self.file, last_pos)
-                            .expect("Unable to read raw model block!");
+                        let data = read_data_block(&self.file, last_pos)?;
 
-                        buffer
-                            .write_all(data.as_slice())
-                            .expect("Unable to write to memory buffer!");
+                        buffer.write_all(data.as_slice()).ok()?;
 
                         data_sizes[i] += data.len() as u32;
                         self.file
                             .seek(SeekFrom::Start(
-                                last_pos + (compressed_block_sizes[current_block] as u64),
+                                last_pos + (*compressed_block_sizes.get(current_block)? as u64),
                             ))
-                            .expect("Unable to seek properly.");
+                            .ok()?;
                         current_block += 1;
                     }
                 }
+
+                Some(())
             };
 
         // process all 3 lods
@@ -357,7 +353,7 @@ impl SqPackData {
                 model_file_info.offset.vertex_buffer_size[i],
                 &mut vertex_data_offsets,
                 &mut vertex_data_sizes,
-            );
+            )?;
 
             // TODO: process edges
 
@@ -368,7 +364,7 @@ impl SqPackData {
                 model_file_info.offset.index_buffer_size[i],
                 &mut index_data_offsets,
                 &mut index_data_sizes,
-            );
+            )?;
         }
 
         let header = ModelFileHeader {
